@@ -23,10 +23,10 @@ func init() {
 	Register(&Check{
 		ID:          "C15",
 		Technique:   "complete enumeration of EnableCompression pairs, client extension offers and server extension replies on the real Dialer/Upgrader (handshake run in-process over scripted transports), followed by message flow under every sequence of <=3 write-compression setting calls; compression state is observed behaviourally, never read from fields",
-		Rule:        "families: pair (real Dialer <-> real Upgrader: 4 EnableCompression pairs x buffer sizes x every toggle sequence of length <=3 over {EnableWriteCompression(true|false), SetCompressionLevel(-2|1|9)} on either side), offer (12 scripted client offers x Upgrader.EnableCompression), reply (14 scripted server replies x Dialer.EnableCompression); complete product. 'accepts compressed' = verdict on a conformant RSV1 message from the independent encoder; 'compresses' = RSV1 on a data message written with write compression explicitly enabled. non-trivial = handshake completed and a non-default choice; distinct by observation hash",
+		Rule:        "families: pair (real Dialer <-> real Upgrader: 4 EnableCompression pairs x buffer sizes x every toggle sequence of length <=3 over {EnableWriteCompression(true|false), SetCompressionLevel(-2|0|1|9)} on either side), offer (12 scripted client offers x Upgrader.EnableCompression), reply (14 scripted server replies x Dialer.EnableCompression); complete product. 'accepts compressed' = verdict on a conformant RSV1 message from the independent encoder; 'compresses' = RSV1 on a data message written with write compression explicitly enabled. non-trivial = handshake completed and a non-default choice; distinct by observation hash",
 		Assumptions: []string{"a connection is never required to compress; it is forbidden to set RSV1 / accept RSV1 unless the 101 response announced permessage-deflate with both no_context_takeover parameters"},
 		Budget:      map[string]time.Duration{"quick": 100 * time.Second, "thorough": 15 * time.Minute},
-		Bound:       map[string]string{"quick": "complete product, toggle sequences <= 3, levels {-2,1,9}", "thorough": "complete product, toggle sequences <= 3, levels -2..9"},
+		Bound:       map[string]string{"quick": "complete product, toggle sequences <= 3, levels {-2,0,1,9}", "thorough": "complete product, toggle sequences <= 3, levels -2..9"},
 		Scenarios:   c15Scenarios,
 	})
 }
@@ -41,7 +41,7 @@ func c15Toggles(tier string) []toggleOp {
 		{"EnableWriteCompression(false)", func(c *websocket.Conn) { c.EnableWriteCompression(false) }},
 		{"EnableWriteCompression(true)", func(c *websocket.Conn) { c.EnableWriteCompression(true) }},
 	}
-	levels := []int{-2, 1, 9}
+	levels := []int{-2, 0, 1, 9} // 0 = flate.NoCompression is a boundary value of its own (stored blocks)
 	if tier == "thorough" {
 		levels = []int{-2, -1, 0, 1, 2, 3, 4, 5, 6, 7, 8, 9}
 	}
